@@ -459,6 +459,8 @@ class Interp:
                 return CALL(A(recv, meth), args, kw)
             if meth == 'format' and recv[0] == 'const' and isinstance(recv[1], str):
                 return self.format_template(recv[1], args)
+            if meth == 'format' and not kw and recv[0] in ('bin', 'fstr', 'ite') and self.is_template(recv):
+                return self.format_term(recv, list(args))
             target = self.resolve_method(recv, meth, len(args) + len(kw), fr)
             if target is not None:
                 return self.inline(target, recv, args, kw, fr, n)
@@ -496,6 +498,55 @@ class Interp:
                     return self.inline(cands[0], None, args, kw, fr, n)
             return CALL(self.lookup(name, fr), args, kw)
         return CALL(self.ex(f, fr), args, kw)
+
+    def is_template(self, t):
+        """a string built by concatenation whose literal chunks carry the {} placeholders"""
+        if t[0] == 'const':
+            return isinstance(t[1], str)
+        if t[0] == 'bin' and t[1] == 'Add':
+            return self.is_template(t[2]) or self.is_template(t[3])
+        if t[0] == 'fstr':
+            return True
+        if t[0] == 'ite':
+            return self.is_template(t[2]) and self.is_template(t[3])
+        return False
+
+    def format_term(self, t, args):
+        """<template term>.format(*args): placeholders are consumed left to right across the literal chunks"""
+        pos = [0]
+        def go(x):
+            if x[0] == 'const' and isinstance(x[1], str):
+                chunks = x[1].split('{}')
+                if len(chunks) == 1:
+                    if '{' in x[1] or '}' in x[1]:
+                        raise Unknown('format spec ' + x[1])
+                    return x
+                parts = []
+                for k, ch in enumerate(chunks):
+                    if k > 0:
+                        parts.append(args[pos[0]] if pos[0] < len(args) else TOP('format-arg'))
+                        pos[0] += 1
+                    if ch:
+                        if '{' in ch or '}' in ch:
+                            raise Unknown('format spec ' + x[1])
+                        parts.append(C(ch))
+                return ('fstr', tuple(parts))
+            if x[0] == 'bin' and x[1] == 'Add':
+                l = go(x[2])
+                r = go(x[3])
+                return BIN('Add', l, r)
+            if x[0] == 'fstr':
+                return ('fstr', tuple(go(y) if (y[0] == 'const' and isinstance(y[1], str)) else y for y in x[1]))
+            if x[0] == 'ite':
+                p0 = pos[0]
+                a = go(x[2])
+                p1 = pos[0]
+                pos[0] = p0
+                b = go(x[3])
+                pos[0] = max(p1, pos[0])
+                return ('ite', x[1], a, b)
+            return x
+        return go(t)
 
     def format_template(self, s, args):
         parts, i = [], 0
